@@ -26,7 +26,7 @@ def fq(name, defs, to=1200, weight=5, kf=()):
 
 def _fq(name, defs, to, weight, kf, checks):
     return Query(name, "allocfail/fail.c", U, defs=dict(defs, N=2), stubs=["mem", "qsort"], checks=checks, unwind=100, unwind_fn=UF, timeout=to,
-                 weight=weight, mem_gb=(24 if (defs.get("API") in (0, 1, 2, 8) or defs.get("FORCE") == 3) else 12), kf=list(kf),
+                 weight=weight, mem_gb=(24 if defs.get("API") in (1, 2) else 18 if (defs.get("API") in (0, 8) or defs.get("FORCE") == 3) else 12), kf=list(kf),
                  extra=(["--max-field-sensitivity-array-size", "128"] if defs.get("API") in (4, 5) else ["--no-array-field-sensitivity"]))
 
 
